@@ -342,6 +342,36 @@ def broken_branch_total(ctx):
                       "worker, so the pending futures are never failed (the Parallel call hangs)" % (fn._qualname, unparse(node, 50), need_exc))
     ctx.floor(n, 1, "partial look-ups on the exit-code reporting path")
     ctx.ok(f, "exit-code reporting path: %d helper functions scanned" % len(seen))
+    # ... and cannot wait forever either: every loop on this path counts a budget down with a well-founded test
+    for fn in seen:
+        for lp in nodes_of_type(fn, ast.While):
+            t = lp.test
+            conj = t.values if isinstance(t, ast.BoolOp) and isinstance(t.op, ast.And) else [t]
+            decs = [a for a in nodes_of_type(lp, ast.AugAssign) if isinstance(a.op, ast.Sub) and isinstance(a.target, ast.Name)]
+            ok, why = False, "no counter is decremented in the loop"
+            for d in decs:
+                cnt = d.target.id
+                step = const_value(d.value)
+                init = [a for a in nodes_of_type(fn, ast.Assign) if cnt in stores_to(a) and not any(a is x for x in ast.walk(lp))]
+                start = const_value(init[0].value) if len(init) == 1 else None
+                ordered = any(unparse(c) in ("%s > 0" % cnt, "0 < %s" % cnt, "%s >= 1" % cnt, "%s >= 0" % cnt, "0 <= %s" % cnt) for c in conj)
+                truthy = any(unparse(c) in (cnt, "%s != 0" % cnt) for c in conj)
+                uncond = all(isinstance(p_, (ast.While,)) or p_ is fn for p_ in [parent(d)])
+                if not isinstance(step, (int, float)) or step <= 0 or not uncond:
+                    why = "the budget `%s` is not decremented by a positive constant on every iteration" % cnt
+                    continue
+                if ordered:
+                    ok = True
+                elif truthy:
+                    # `while ... and budget:` only ends if the countdown hits 0 exactly: integers, step dividing the start
+                    if isinstance(step, int) and isinstance(start, int) and not isinstance(start, bool) and start >= 0 and start % step == 0:
+                        ok = True
+                    else:
+                        why = "the loop tests the budget `%s` for truth, but it counts down from %r by %r and may never be exactly 0" % (cnt, start, step)
+                else:
+                    why = "the loop test `%s` does not bound the budget `%s`" % (unparse(t, 60), cnt)
+            ctx.check(ok, lp, "%s: the wait `while %s` is bounded by a budget that runs out" % (fn._qualname, unparse(t, 50)),
+                      "%s: `while %s` may never end (%s): when the dead worker's exit code cannot be collected the manager thread polls forever and the pending futures are never failed" % (fn._qualname, unparse(t, 60), why))
 
 
 def run(ctx):
